@@ -43,9 +43,46 @@ func (pass *EnumMemberIdentifiers) Process(schemas []*ast.Schema) ([]*ast.Schema
 				return nil, err
 			}
 		}
+
+		if err := pass.checkSharedNamespace(schema); err != nil {
+			return nil, err
+		}
 	}
 
 	return schemas, nil
+}
+
+// checkSharedNamespace deals with the languages where the members of an enum
+// are declared next to the objects of the schema (EnumIdentifier is set): a
+// member can not be named like another object, or like a member of another enum.
+func (pass *EnumMemberIdentifiers) checkSharedNamespace(schema *ast.Schema) error {
+	if pass.EnumIdentifier == nil {
+		return nil
+	}
+
+	// identifier → what it designates
+	declared := make(map[string]string)
+	for _, object := range schema.Objects.Values() {
+		declared[pass.EnumIdentifier(object)] = fmt.Sprintf("the object %s.%s", object.SelfRef.ReferredPkg, object.Name)
+	}
+
+	for _, object := range schema.Objects.Values() {
+		if !object.Type.IsEnum() {
+			continue
+		}
+
+		for _, member := range object.Type.AsEnum().Values {
+			identifier := pass.Identifier(member)
+
+			if other, taken := declared[identifier]; taken {
+				return fmt.Errorf("%s.%s: the enum member '%s' (%v) is named '%s' in %s, like %s: give it another name", object.SelfRef.ReferredPkg, object.Name, member.Name, member.Value, identifier, pass.Language, other)
+			}
+
+			declared[identifier] = fmt.Sprintf("the member '%s' of %s.%s", member.Name, object.SelfRef.ReferredPkg, object.Name)
+		}
+	}
+
+	return nil
 }
 
 func (pass *EnumMemberIdentifiers) checkEnum(object ast.Object) error {
